@@ -156,9 +156,24 @@ def typing_rules(ctx, rule='A17c'):
 
 def evaluate_rules(ctx, rule='A17e'):
     fn = ctx.fn('adsg_core.optimization.evaluator:DSGEvaluator.evaluate')
-    gets = [c for c in calls(fn, 'get') if norm(c.func.value) == 'value_map']
-    if len(gets) < 3:
-        raise AnalysisError('evaluate: value look-ups not found')
+    # the values reported come from the evaluator's answer of THIS call, never from values stored on the graph
+    # (a derived graph inherits the stored values of its parent, also for nodes it no longer has)
+    result_maps = {norm(s.targets[0]) for s in walk_fn(fn) if isinstance(s, ast.Assign) and
+                   isinstance(s.value, ast.Call) and call_name(s.value) == '_evaluate'}
+    if not result_maps:
+        raise AnalysisError('evaluate: call of _evaluate not found')
+    lookups = [c for c in calls(fn, 'get') if c.args and norm(c.args[0]).endswith('.node')] + \
+        [x for x in walk_fn(fn) if isinstance(x, ast.Subscript) and norm(x.slice).endswith('.node')]
+    if len(lookups) < 2:
+        raise AnalysisError('evaluate: no value look-up keyed by the node of an objective / constraint found')
+    for i, c in enumerate(lookups):
+        recv = norm(c.func.value) if isinstance(c, ast.Call) else norm(c.value)
+        ctx.ob(rule, fkey(fn, rule, f'value-from-this-evaluation:{norm(c.args[0]) if isinstance(c, ast.Call) else norm(c.slice)}'),
+               recv in result_maps, f'{fn.module.relpath}:{c.lineno}',
+               'the value reported for an objective / constraint is looked up in the mapping returned by _evaluate '
+               'for this instance', f'looked up in `{recv}`' + ('' if recv in result_maps else
+                                                                 ' - not the result of this evaluation'))
+    gets = [c for c in calls(fn, 'get') if norm(c.func.value) in result_maps]
     for i, c in enumerate(gets):
         ok = len(c.args) == 2 and norm(c.args[1]) in ('math.nan', "float('nan')", 'np.nan', 'nan')
         ctx.ob(rule, fkey(fn, rule, f'nan-default:{norm(c.args[0])}'), ok, f'{fn.module.relpath}:{c.lineno}',
@@ -220,6 +235,10 @@ def check(ctx):
 from ..selftest import V  # noqa: E402
 
 VARIANTS = [
+    V('constraint-read-from-stored-values', 'optimization/evaluator.py',
+      [("constraint_values = [value_map.get(constraint.node, math.nan)\n                             if constraint.node in metric_nodes else constraint.ref\n                             for constraint in self.constraints]",
+        "metric_values = dsg.metric_values\n        constraint_values = [metric_values.get(constraint.node, constraint.ref) for constraint in self.constraints]")],
+      key='value-from-this-evaluation'),
     V('objective-without-permanence', 'optimization/graph_processor.py',
       [("        return metric_node.dir is not None and metric_node in permanent_nodes", "        return metric_node.dir is not None")],
       key='objective-iff'),
